@@ -216,6 +216,8 @@ pub fn gen_session(rng: &mut Rng, o: &GenOpts) -> (SenderSpec, Vec<ObjSpec>) {
         CencSpec::Null
     };
     spec.inband_sct = rng.chance(3, 4);
+    // FLUTE version 1 profile (EXT_FDT version 1) in one session out of eight
+    spec.rfc3926 = rng.chance(1, 8);
     spec.fdt_start_id = *rng.pick(&[0u32, 1, 7, 0xFFFFE, 0xFFFFF]);
     spec.toi_bits = *rng.pick(&[16u8, 32, 48, 64, 80, 112]);
     spec.toi_initial = Some(*rng.pick(&[1u128, 2, 100, 0xFFFE, 0xFFFF]));
